@@ -650,7 +650,7 @@ def check_C07(run):
                 toks = shlex.split(sp["argv"][2])
             except ValueError:
                 toks = None
-            exp_toks = ["sim", t] + [_render(a) for a in d.get("args", [])] + \
+            exp_toks = ["sim", ("@" + d["xg"]["g"]) if d.get("xg") else t] + [_render(a) for a in d.get("args", [])] + \
                 ["--%s=%s" % (k, _render(v)) for k, v in d.get("options", {}).items()]
             if toks != exp_toks:
                 V.append(Violation("C07", "command-line-differs-from-run-args-options",
